@@ -9,7 +9,9 @@ EXPLANATION = (
     "the is_convert field has provenance `<result of convert_ref>.is_convert`, directly or through a field of the "
     "gradual calculator that its constructor fills that way. R2: Beatmap.is_convert is assigned `true` only in the three "
     "converters, each in the function that also assigns `mode` its own constant, and `false` only when a map is created "
-    "(decoder / Default); nothing else writes it. All counting clauses (min(n,total), monotone, caps, sums) are "
+    "(decoder / Default); nothing else writes it. R3 (osu!): the one-shot counting closure and the gradual increment function "
+    "count every object kind with exactly one of n_circles/n_sliders/n_spinners (+1) and max_combo (+1), and the two are "
+    "identical arm by arm. All other counting clauses (min(n,total), monotone, caps, sums) are "
     "arithmetic over runtime values: NOT decided.")
 
 BM = 'model::beatmap::Beatmap'
@@ -132,5 +134,118 @@ def run(ctx):
     for m in ('taiko', 'catch', 'mania'):
         w = [p for p in writers if p.startswith(m + '::') and p.endswith('::convert')]
         ctx.require(bool(w), 'C14-R2', 'marks:' + m, '%s converter marks its result' % m, bad='no function of %s::convert sets is_convert = true' % m)
-    ctx.not_decided('all counting clauses: n_circles+n_sliders+n_spinners = objects considered, taiko max combo = hits, mania counts, '
+    r3(ctx, F)
+    ctx.not_decided('all other counting clauses: n_circles+n_sliders+n_spinners = objects considered, taiko max combo = hits, mania counts, '
                     'catch fruit counts, min(n,total), monotonicity in n, saturation above the total')
+
+
+# ---- R3: osu! object kinds are counted by exactly one counter each, identically in the one-shot and the gradual path
+OSU_ATTR = 'osu::attributes::OsuDifficultyAttributes'
+OSU_KIND = 'osu::object::OsuObjectKind'
+
+
+def upvar_fields(F, closure_fn):
+    """for a closure: upvar index -> last field name of the captured place in the parent (edition-2021 closures
+    capture individual fields by reference)"""
+    parent = F.fn(closure_fn.path.rsplit('::{closure#', 1)[0])
+    out = {}
+    if parent is None:
+        return out
+    P = prov.prov_of(parent)
+    for bi, si, s in parent.assigns():
+        rv = s['rv']
+        if rv['k'] == 'agg' and rv.get('ak') == 'closure' and rv['closure'] == closure_fn.path:
+            for i, o in enumerate(rv['ops']):
+                v = P.operand(o, bi, si)
+                pp = as_param_path(v)
+                if pp is not None and pp[1]:
+                    out[i] = pp[1][-1]
+    return out
+
+
+def attr_increments(F, fn, blocks):
+    """[(attribute field, increment rendered)] for writes of OsuDifficultyAttributes counters in `blocks`"""
+    P = prov.prov_of(fn)
+    ups = upvar_fields(F, fn) if fn.kind == 'Closure' else {}
+    out = []
+    for bi in sorted(blocks):
+        for si, s in enumerate(fn.blocks[bi]['s']):
+            if s['k'] != 'assign':
+                continue
+            p = s['p']
+            field = None
+            fs = [e for e in p.get('proj', []) if isinstance(e, dict) and e.get('adt') == OSU_ATTR]
+            if fs:
+                field = fs[0]['f']
+            elif p.get('proj') == ['*'] and ups:
+                v = P.local(p['l'], bi, si)
+                pp = as_param_path(v)
+                if pp is not None and pp[0] == 1 and pp[1] and pp[1][0].startswith('upvar'):
+                    field = ups.get(int(pp[1][0][5:]))
+            if field is None:
+                continue
+            v = P.rvalue(s['rv'], bi, si)
+            # v = AddWithOverflow(old, X).0  -> render X with parameter numbers erased
+            inc = None
+            for n in prov.walk(v, limit=50):
+                if n[0] == 'binop' and n[1] in ('AddWithOverflow', 'Add'):
+                    inc = n[3]
+                    break
+            txt = prov.show(inc, maxdepth=4) if inc is not None else prov.show(v, maxdepth=3)
+            import re as _re
+            txt = _re.sub(r'param#\d+|\(\*?_\d+\)', '_', txt)
+            txt = _re.sub(r'\(…[^)]*\)|…', '_', txt)
+            out.append((field, txt))
+    return out
+
+
+def kind_summary(F, fn):
+    import arms
+    P = prov.prov_of(fn)
+    for bb, info in arms.enum_switches(fn):
+        op = fn.blocks[bb]['t']['discr']
+        d = P.reaching(op['p']['l'], bb, len(fn.blocks[bb]['s']))
+        adt = d[0].data['rv'].get('adt') if d and d[0].kind == 'assign' else None
+        if adt != OSU_KIND:
+            continue
+        out = {}
+        total = 0
+        for lab, tgt in info['edges']:
+            incs = attr_increments(F, fn, arms.region(fn, tgt))
+            out[lab] = sorted(incs)
+            total += len(incs)
+        dom = fn.cfg.dom()
+        common_blocks = [b for b in dom.get(bb, ()) ]
+        out['*'] = sorted(attr_increments(F, fn, common_blocks))
+        if total:
+            return out
+    return None
+
+
+def r3(ctx, F):
+    sums = {}
+    for fn in F.fns:
+        if not fn.path.startswith('osu::'):
+            continue
+        s = kind_summary(F, fn)
+        if s:
+            sums[fn.path] = (fn, s)
+    ctx.floor('C14-R3', len(sums), 2, 'functions counting osu! objects by kind (one-shot closure + gradual increment)')
+    ref = None
+    for path, (fn, s) in sorted(sums.items()):
+        ctx.saw(fn)
+        kinds = {}
+        for lab in ('Circle', 'Slider', 'Spinner'):
+            ones = [f for f, inc in s.get(lab, []) if f in ('n_circles', 'n_sliders', 'n_spinners') and inc == '1']
+            kinds[lab] = ones
+        good = all(len(v) == 1 for v in kinds.values()) and len({v[0] for v in kinds.values() if v}) == 3
+        combo_all = ('max_combo', '1') in s.get('*', []) or all(any(f == 'max_combo' for f, _ in s.get(l, [])) for l in ('Circle', 'Slider', 'Spinner'))
+        ctx.require(good and combo_all, 'C14-R3', 'kinds:' + path, '%s: each kind increments exactly one of n_circles/n_sliders/n_spinners by 1 (%s) and max_combo by 1 for every object'
+                    % (path, {k: v for k, v in kinds.items()}), fn.where(),
+                    bad='%s: kind counters per arm are %s, common %s — circles + sliders + spinners no longer add up to the objects considered' % (path, kinds, s.get('*')))
+        if ref is None:
+            ref = (path, s)
+        else:
+            same = all(s.get(k) == ref[1].get(k) for k in ('Circle', 'Slider', 'Spinner', '*'))
+            ctx.require(same, 'C14-R3', 'siblings:' + path, 'counts per kind identical to %s: %s' % (ref[0], {k: s.get(k) for k in ('Circle', 'Slider', 'Spinner', '*')}), fn.where(),
+                        bad='%s and %s count objects differently: %s vs %s' % (path, ref[0], {k: s.get(k) for k in s}, {k: ref[1].get(k) for k in ref[1]}))
